@@ -26,6 +26,9 @@ def cases(draw, tier):
     name = ".".join(PIECES[draw(st.integers(0, len(PIECES) - 1))] for _ in range(ndots + 1))
     tdir = chain[-1]
     t = posixpath.join(tdir, name)
+    # a sibling with the same extension chain: it shares every default*.do candidate with t (but not t's own .do)
+    name2 = "zz" + (name[name.index("."):] if "." in name else "")
+    t2 = posixpath.join(tdir, name2)
     cands = [c[0] for c in P.do_candidates(t)]
     npos = draw(st.integers(1, 4))
     pos = sorted(set(draw(st.integers(0, len(cands) - 1)) for _ in range(npos)))
@@ -35,19 +38,26 @@ def cases(draw, tier):
         dofiles[cands[i]] = {"v": 1, "body": [["dep", 1, [src]], ["out", draw(st.sampled_from(["stdout", "file"]))]]}
     ops = []
     present = set(pos)
-    n = draw(st.integers(3, 8))
+    n = draw(st.integers(3, 9))
+    if draw(st.integers(0, 99)) < 60:
+        # both siblings are built first, so that later candidate changes meet two recorded targets
+        ops.append(["build", "ifchange", "", 0, draw(st.sampled_from([2, 3]))])
     for _ in range(n):
         k = draw(st.integers(0, 99))
         cwd = dirs[draw(st.integers(0, len(dirs) - 1))]
         style = draw(st.integers(0, 4))
         if k < 40:
-            ops.append(["build", draw(st.sampled_from(["ifchange", "redo"])), cwd, style])
+            # which: 0 = t alone (generated spelling), 1 = the sibling alone, 2 = both, 3 = both, sibling first
+            ops.append(["build", draw(st.sampled_from(["ifchange", "redo"])), cwd, style,
+                        draw(st.sampled_from([0, 0, 1, 2, 3]))])
         elif k < 60:
             ops.append(["whichdo", cwd, style])
         elif k < 80:
             first = min(present) if present else len(cands)
             if first > 0:
                 i = draw(st.integers(0, first - 1))
+                if i == 0 and first > 1 and draw(st.integers(0, 99)) < 70:
+                    i = draw(st.integers(1, first - 1))     # prefer a default*.do that both siblings share
                 present.add(i)
                 ops.append(["adddo", cands[i], {"v": 1, "body": [["dep", 1, [src]], ["out", "stdout"]]}])
         elif k < 92:
@@ -57,7 +67,7 @@ def cases(draw, tier):
                 ops.append(["rmdo", cands[i]])
         else:
             ops.append(["edit", src])
-    proj = {"dirs": dirs, "sources": [src], "dofiles": dofiles, "targets": [t], "watch": []}
+    proj = {"dirs": dirs, "sources": [src], "dofiles": dofiles, "targets": [t, t2], "watch": []}
     return {"project": proj, "cfg": {"log": draw(st.integers(0, 1)), "keep_going": 0}, "ops": ops}
 
 
@@ -90,8 +100,16 @@ class Runner(hist.HistoryRunner):
         dirs = self.case["project"]["dirs"]
         if k == "build":
             kind, cwd, style = op[1], op[2], op[3]
+            which = op[4] if len(op) > 4 else 0
             if not os.path.isdir(os.path.join(disk.root, ".redo")):
                 cwd = ""
+            if which and len(m.targets) > 1:
+                t2 = m.targets[1]
+                ts = {1: [t2], 2: [t, t2], 3: [t2, t]}[which]
+                if which >= 2:
+                    self.out.events["c13:both-siblings-in-one-command"] += 1
+                self.do_cmd(kind, ts, cwd)
+                return
             sp = spell(t, cwd, style, dirs) or os.path.join(disk.root, t)
             self.spelling = sp
             self.do_cmd_spelled(kind, t, sp, cwd)
@@ -135,9 +153,23 @@ class Runner(hist.HistoryRunner):
             self._spell_override = None
 
     def check_cmd(self, kind, targets, cwd, res, ok, ex, calls, args, exits, pre, nested, ctx):
+        for t in targets:
+            self.check_target(t, ok, ex, args, ctx)
+        hist.HistoryRunner.check_cmd(self, kind, targets, cwd, res, ok, ex, calls, args, exits, pre, nested, ctx)
+
+    def check_target(self, t, ok, ex, args, ctx):
         m = self.m
-        t = targets[0]
         ev = self.out.events
+        if ok and t not in ex:
+            # not executed by this successful command: what is there must still come from the script that is the
+            # first existing candidate NOW (a candidate added or removed since must have caused a rebuild)
+            rule = m.rule_for(t)
+            f = m.fs.get(t)
+            got = self.disk.read(t)
+            if rule is not None and got is not None and (f is None or f.owner == "redo") \
+                    and (" %s v" % rule[0]).encode() not in got.split(b"\n")[0]:
+                self.violate("C13", "wrong-script", dict(ctx, target=t, content=hist._short(got), want_dofile=rule[0]),
+                             {"symptom": "wrong-script", "executed": False})
         if t in ex:
             rule = m.rule_for(t)
             a = args.get(t)
@@ -174,7 +206,6 @@ class Runner(hist.HistoryRunner):
             if ok and (got is None or (" %s v" % dof).encode() not in got.split(b"\n")[0]):
                 self.violate("C13", "wrong-script", dict(ctx, content=hist._short(got), want_dofile=dof),
                              {"symptom": "wrong-script"})
-        hist.HistoryRunner.check_cmd(self, kind, targets, cwd, res, ok, ex, calls, args, exits, pre, nested, ctx)
 
 
 # let do_cmd use the overridden spelling
